@@ -263,7 +263,7 @@ def Whole.prims : LexPrims Whole where
 /-- Tokens of a whole input, in order. -/
 def lexWhole (input : Bytes) : List Token :=
   let fuel := input.length + 2
-  (lexRun Whole.prims fuel (2 * input.length + 4) .start
+  (lexRun Whole.prims fuel (3 * input.length + 4) .start
     { s := { pos := 0, cur := [], rest := input, width := 0 }, toks := [] }).toks.reverse
 
 /-! ## sliding-window instantiation (port of the Go fields) -/
@@ -315,7 +315,7 @@ def Win.prims : LexPrims Win where
 def lexChunks (chunks : List Bytes) : List Token × List Nat :=
   let total := (chunks.map List.length).sum
   let fuel := total + 2
-  let r := lexRun Win.prims fuel (2 * total + 4) .start
+  let r := lexRun Win.prims fuel (3 * total + 4) .start
     { s := { input := [], start := 0, pos := 0, posShift := 0, width := 0, pending := chunks, lfs := [] },
       toks := [] }
   (r.toks.reverse, r.s.lfs)
